@@ -348,8 +348,8 @@ func c19Judge(c *core.Ctx, n *c19Node, desc any, path string, sigs map[string]bo
 		if v == nil {
 			continue
 		}
-		_, isStack := stackage.ConvertStack(v)
-		_, isCond := stackage.ConvertCondition(v)
+		_, isStack := AsStack(v)
+		_, isCond := AsCond(v)
 		if !isStack && !isCond {
 			continue
 		}
